@@ -76,7 +76,9 @@ def main():
         sh("git", "-C", REPO, "worktree", "remove", "--force", tree)
     print(f"{len(patches)} refactorings, {bad} with alarms")
     if "--md" in sys.argv:
-        lines = ["Each refactoring was written by an independent sub-agent that saw only the library (its own scratch worktree), was "
+        lines = ["The entries `RN_<name>` are mechanical: one private name (underscore function, cached property) renamed "
+                 "consistently in the whole package (the suite passes with all of them applied together). "
+                 "Every other refactoring was written by an independent sub-agent that saw only the library (its own scratch worktree), was "
                  "asked for behaviour-preserving edits of the functions the rules inspect, ran the 127 tests and differential runs "
                  "with each patch, and knew nothing about /verif. `tools/refac_eval.py` applies each patch to a scratch worktree of "
                  f"/repo's HEAD and runs all {len(props)} checks ({tier} tier) against it; any VIOLATION or ANALYSIS-ERROR is a false alarm.",
